@@ -211,6 +211,52 @@ def gen_decls(rng, cfg):
         if rng.random() < 0.5:
             lines.append('typedef struct _FooExtra FooExtra;\nstruct _FooExtra {\n  gint q;\n};')
             decls.append({'c': 'FooExtra', 'class': 'type', 'kind': 'record', 'order': 'longer-include-prefix'})
+    # registered type hierarchies (runtime dump): a fundamental root without parent and a GObject one, each with a derived class,
+    # and boxed registrations of some records; "new" functions returning the type itself, an ancestor, or a descendant
+    dump = None
+    parents = {}
+    if rng.random() < 0.5 and 'foo' in sp and ip[0] == 'Foo' and not any(w in tnames for w in ('Root', 'Leaf', 'Gadget', 'Knob')):
+        D = ['<?xml version="1.0"?>', '<dump>']
+        hier = [('FooRoot', None, 'fundamental'), ('FooLeaf', 'FooRoot', 'fundamental'), ('FooGadget', 'GObject', 'class'), ('FooKnob', 'FooGadget', 'class')]
+        for cname, parent, tag in hier:
+            us = 'foo_' + objgen.uscore(cname[3:])
+            pstruct = {None: 'GTypeInstance', 'GObject': 'GObject'}.get(parent, parent)
+            lines.append('typedef struct _%s %s;\nstruct _%s {\n  %s parent_instance;\n  gint v;\n};' % (cname, cname, cname, pstruct))
+            lines.append('GType %s_get_type (void);' % us)
+            decls.append({'c': cname, 'class': 'type', 'kind': 'class', 'order': 'registered-' + tag})
+            decls.append({'c': us + '_get_type', 'class': 'function', 'shape': 'get-type', 'ret': 'GType', 'params': [], 'type': cname})
+            chain = []
+            q = parent
+            while q:
+                chain.append(q)
+                q = dict((h[0], h[1]) for h in hier).get(q)
+            parents[cname] = chain
+            if tag == 'fundamental':
+                D.append('  <fundamental name="%s" get-type="%s_get_type" instantiatable="1"%s/>' % (cname, us, (' parents="%s"' % ','.join(chain)) if chain else ''))
+            else:
+                D.append('  <class name="%s" get-type="%s_get_type" parents="%s"/>' % (cname, us, ','.join(chain)))
+            types.append(cname)
+        for child, parent in (('FooLeaf', 'FooRoot'), ('FooKnob', 'FooGadget')):
+            cu, pu = 'foo_' + objgen.uscore(child[3:]), 'foo_' + objgen.uscore(parent[3:])
+            for name, ret, shape, t in ((cu + '_new', child, 'ctor-registered', child), (cu + '_new_as_parent', parent, 'ctor-returns-ancestor', child),
+                                        (pu + '_new_' + objgen.uscore(child[3:]), child, 'ctor-returns-descendant', parent),
+                                        (pu + '_new', parent, 'ctor-registered', parent)):
+                if rng.random() < 0.8:
+                    lines.append(apigen.render_function(name, ret + ' *', []))
+                    decls.append({'c': name, 'class': 'function', 'shape': shape, 'ret': ret + ' *', 'params': [], 'type': t})
+        for d0 in list(decls):
+            if d0['class'] == 'type' and d0.get('kind') in ('record', 'union') and d0['c'] in types and d0['c'].startswith('Foo') and d0.get('order') != 'anon' and d0['c'] not in ip and rng.random() < 0.5:
+                us = 'foo_' + objgen.uscore(d0['c'][3:])
+                if ('c:' + us + '_get_type') in seen or us in sp:       # a type whose symbol prefix is the namespace's own cannot be named
+                    continue
+                seen.add('c:' + us + '_get_type')
+                lines.append('GType %s_get_type (void);' % us)
+                decls.append({'c': us + '_get_type', 'class': 'function', 'shape': 'get-type', 'ret': 'GType', 'params': [], 'type': d0['c']})
+                D.append('  <boxed name="%s" get-type="%s_get_type"/>' % (d0['c'], us))
+        D.append('</dump>')
+        dump = '\n'.join(D) + '\n'
+    cfg['parents'] = parents
+    cfg['dump'] = dump
     # constants
     for i in range(rng.choice([1, 2, 3])):
         spx = rng.choice(sp)
@@ -301,6 +347,15 @@ def judge(cfg, decls, types, gir):
         if names is None:
             # accept-unprefixed admits it under its full name
             names = {c}
+        if d.get('shape') == 'get-type':
+            # folded into the type it registers
+            owners = [x for x in by_ctype.get(d['type'], []) + [y for y in ns.children if y.get('glib:type-name') == d['type'] and not y.get('c:type')]]
+            hits['get-type'] += 1
+            if nodes:
+                out.append(('get-type-kept', 'get-type function %s is still described although the runtime dump registers %s with it' % (c, d['type'])))
+            elif len(owners) != 1 or owners[0].get('glib:get-type') != c:
+                out.append(('get-type-not-folded', '%s: %d elements for %s, glib:get-type=%r' % (c, len(owners), d['type'], owners[0].get('glib:get-type') if owners else None)))
+            continue
         real = [n for n in nodes if n.get('moved-to') is None]
         if len(real) != 1:
             out.append(('not-exactly-once:' + cls, '%s %s described %d times (%d with moved-to) [config %s]' % (cls, c, len(real), len(nodes) - len(real), cfg['kind'])))
@@ -349,8 +404,10 @@ def judge(cfg, decls, types, gir):
         elif n.tag == 'constructor':
             if not any(s.startswith(opfx + '_') for s in names):
                 out.append(('constructor-only-if:prefix', '%s is a constructor of %s without carrying its prefix %s' % (c, oname, opfx)))
-            if apigen.base_of(d['ret']) != oct:
-                out.append(('constructor-only-if:return', '%s is a constructor of %s but returns %s' % (c, oname, d['ret'])))
+            if apigen.base_of(d['ret']) != oct and apigen.base_of(d['ret']) not in (cfg.get('parents') or {}).get(oct, []):
+                out.append(('constructor-only-if:return', '%s is a constructor of %s but returns %s (neither that type nor one of its ancestors %r)' % (
+                    c, oname, d['ret'], (cfg.get('parents') or {}).get(oct, []))))
+            hits['constructor'] += 1
     # nothing undeclared may appear
     for cid, nodes in by_cid.items():
         if cid not in declared:
@@ -375,7 +432,7 @@ def run_case(case):
     m0 = dict(scan.mech)
     r = scan.scan({'namespace': 'Foo', 'version': '1.0', 'identifier_prefixes': cfg['ident'], 'symbol_prefixes': cfg['symbol'],
                    'includes': cfg['includes'], 'include_paths': [st['incdir']], 'accept_unprefixed': cfg['accept_unprefixed'],
-                   'headers': [('/src/foo.h', header)]})
+                   'headers': [('/src/foo.h', header)], 'dump': cfg.get('dump')})
     res = {'viol': [], 'classes': [], 'hits': {}}
     replay = {'config': cfg, 'header': header}
     if r['exception']:
